@@ -90,6 +90,9 @@ SUBS = [
     Sub("dfs", c09.make_dfs_oracle(PREFIX), enumerate=c09.dfs_cases, shards={"quick": 8, "thorough": 8},
         time_cap={"quick": 100, "thorough": 1500},
         what="bounded-exhaustive schedules of tiny pool programs"),
+    Sub("sweep", c09.make_sweep_oracle(PREFIX), enumerate=c09.sweep_cases, shards={"quick": 6, "thorough": 6},
+        time_cap={"quick": 100, "thorough": 1500},
+        what="staged pool programs: every schedule with one preemption at a distinct source line of threadpool.py"),
     Sub("grid", grid_oracle, enumerate=grid_cases, shards={"quick": 8, "thorough": 8},
         what="exhaustive constructor argument grid on the real (unsimulated) pool"),
 ]
